@@ -359,8 +359,13 @@ def check_program(prog, src, res, desc, family):
     if len(prog.toks) >= 4:
         res.nontriv(src)
     qp = False      # ('?' print statements are ordinary statements since the parser learnt them)
+    chunks = [src]
+    if desc in ('lines', 'token-per-line'):
+        # the .p8 path: the same text arriving one line per chunk
+        parts = src.split(b'\n')
+        chunks = [p_ + b'\n' for p_ in parts[:-1]] + ([parts[-1]] if parts[-1] else [])
     try:
-        obj = lua.Lua.from_lines([src], version=8)
+        obj = lua.Lua.from_lines(chunks, version=8)
     except Exception as e:
         if qp:
             res.violation('C08|qprint|parse-raise', 'valid program %r with a ? print statement: %s: %s' % (
